@@ -425,6 +425,21 @@ class Program:
                 ast.copy_location(fake, call)
                 return self.resolve_call(func, mod, fake, local_names)
             return ("unresolved", [])
+        # super().method(...)
+        if isinstance(fn, ast.Attribute) and isinstance(fn.value, ast.Call) \
+                and isinstance(fn.value.func, ast.Name) and \
+                fn.value.func.id == "super" and func is not None:
+            owner = func
+            while owner is not None and owner.cls is None:
+                owner = owner.parent
+            if owner is not None and owner.cls is not None:
+                for b in owner.cls.bases:
+                    bc = self.classes.get(b)
+                    if bc is not None:
+                        m = self.mro_method(bc, fn.attr)
+                        if m is not None:
+                            return ("internal", [m.qual])
+                return ("method", ["." + fn.attr])
         root = fn
         while isinstance(root, ast.Attribute):
             root = root.value
